@@ -21,7 +21,7 @@ pub fn budget(prop: &str, tier: &str) -> Budget {
     let (q, t): (u64, u64) = match prop {
         "C04" => (40, 2_000),
         "C10" | "C19" => (300, 30_000),
-        "C11" => (400, 60_000),
+        "C11" => (160, 20_000),
         "C20" => (300, 30_000),
         "C15" | "C17" | "C18" => (400, 40_000),
         "C01" | "C02" | "C09" => (600, 100_000),
@@ -169,10 +169,23 @@ impl Known {
 
 pub fn check(prop: &str, tier: &str) -> i32 {
     let started = Instant::now();
+    // scratch directories of workers that were killed by the watchdog in an earlier check
+    if let Ok(rd) = std::fs::read_dir(std::env::var("VERIF_SCRATCH").unwrap_or_else(|_| "/dev/shm".into())) {
+        for e in rd.flatten() {
+            let name = e.file_name().to_string_lossy().to_string();
+            if let Some(rest) = name.strip_prefix("iggy-sim-") {
+                let pid = rest.split('-').next().unwrap_or("");
+                if !std::path::Path::new(&format!("/proc/{pid}")).exists() {
+                    let _ = std::fs::remove_dir_all(e.path());
+                }
+            }
+        }
+    }
     let base_seed: u64 = std::env::var("VERIF_SEED").ok().and_then(|s| s.parse().ok()).unwrap_or(1);
     let budget = budget(prop, tier);
     let workers: usize = std::env::var("VERIF_WORKERS").ok().and_then(|s| s.parse().ok()).unwrap_or_else(|| std::thread::available_parallelism().map(|n| n.get()).unwrap_or(8).min(16));
     let first_seed = base_seed.wrapping_mul(1_000_000);
+    std::env::set_var("VERIF_TIER", if tier == "thorough" { "thorough" } else { "quick" });
     let next = Arc::new(AtomicU64::new(0));
     let stop = Arc::new(AtomicBool::new(false));
     let (tx, rx) = mpsc::channel::<(u64, Result<Value, String>)>();
